@@ -39,6 +39,20 @@ Theorem C13_pipeline_semantics : forall p fs input,
 Proof. exact pipeline_semantics. Qed.
 Print Assumptions C13_pipeline_semantics.
 
+(* settings made on an operand before it is composed further are carried along: p | q keeps p's input, input data and
+   stderr sink and q's output; p | e keeps all of p's *)
+Theorem C13_cat_keeps_settings : forall x y a b, build x = Some a -> build y = Some b ->
+  exists r, build (PCat x y) = Some r /\ p_cmds r = p_cmds a ++ p_cmds b
+            /\ p_in r = p_in a /\ p_data r = p_data a /\ p_errfile r = p_errfile a /\ p_out r = p_out b.
+Proof. exact cat_keeps_settings. Qed.
+Print Assumptions C13_cat_keeps_settings.
+
+Theorem C13_push_keeps_settings : forall x e a, build x = Some a ->
+  exists r, build (PPush x e) = Some r /\ p_cmds r = p_cmds a ++ [e]
+            /\ p_in r = p_in a /\ p_data r = p_data a /\ p_errfile r = p_errfile a /\ p_out r = p_out a.
+Proof. exact push_keeps_settings. Qed.
+Print Assumptions C13_push_keeps_settings.
+
 Example C13_nonvacuous :
   let e := fun c => cmd [c] in
   let x := PStdout (PStdin (PCat (PNew (e 97%N) (e 98%N)) (PPush (PNew (e 99%N) (e 100%N)) (e 101%N))) (IRedir BPipe)) (BFile 7) in
